@@ -237,23 +237,33 @@ class EnumRNG(np.random.Generator):
         return arr[list(perms[idx])]
 
     def shuffle(self, x, axis=0):
+        """Uniform shuffle as a sequence of draws without replacement; elements that are indistinguishable for the
+        caller (equal keys, e.g. repeated sentinels) are merged at every step, so the number of executions is the
+        number of DISTINCT arrangements and a long list costs n small choice points instead of one with n! outcomes."""
         n = len(x)
         if n <= 1:
             return
-        seen = {}
+        remaining = {}
         order = []
-        for p in itertools.permutations(range(n)):
-            key = tuple(_key(x[j]) for j in p)
-            if key not in seen:
-                seen[key] = [p, 0]
-                order.append(key)
-            seen[key][1] += 1
-        tot = float(math.factorial(n))
-        idx = self._choose("shuffle", [seen[k][1] / tot for k in order])
-        p = seen[order[idx]][0]
-        vals = [x[j] for j in p]
+        for v in x:
+            k = _key(v)
+            if k not in remaining:
+                remaining[k] = []
+                order.append(k)
+            remaining[k].append(v)
+        out = []
+        left = n
+        while left > 0:
+            keys = [k for k in order if remaining[k]]
+            if len(keys) == 1:
+                out.extend(remaining[keys[0]])
+                remaining[keys[0]] = []
+                break
+            idx = self._choose("shuffle", [len(remaining[k]) / float(left) for k in keys])
+            out.append(remaining[keys[idx]].pop(0))
+            left -= 1
         for j in range(n):
-            x[j] = vals[j]
+            x[j] = out[j]
 
     def permutation(self, x, axis=0):
         if isinstance(x, (int, np.integer)):
